@@ -5,10 +5,12 @@ CONSTANTS
   SponsorOf <- Sp3
   SizeOf <- Sz3
   Rates = {0, 1, 2}
+  FailRates = {1, 2}
   Maxes = {0, 1, 2, 3, 4}
   Stamps = {0, 2, 4}
   ExpChoices <- OneExp
   MaxChunk = 3
   FixedCode = TRUE
+  LateTrack = FALSE
 INVARIANTS TypeOK PendingIsSumOfUnsettled ZeroWhenSettled WithinMax RecordMatchesOpen OpenWillBeReleased
 CHECK_DEADLOCK FALSE
